@@ -369,6 +369,14 @@ class Translator:
         if op in ('udiv', 'urem') and getattr(self, 'hook_arith', False) and not is_const and GetIntTypeWidth(t) in (32, 64) \
                 and GetValueKind(ops[1]) != VK['ConstantInt']:
             return '(__verif_divcheck(%s != 0), __verif_%s%d(%s, %s))' % (A(1), op, GetIntTypeWidth(t), A(0), A(1))
+        if op == 'sub' and GetIntTypeWidth(t) == 64:
+            # end - begin of a container: the difference of two pointers into the same object is the difference of their offsets; stated that way
+            # cbmc's symbolic execution folds it to a constant whenever both pointers are known (sizes of containers with a concrete history)
+            pp = []
+            for o in ops:
+                k = GetValueKind(o)
+                if k == VK['Instruction'] and OPC[GetInstructionOpcode(o)] == 'ptrtoint' and GetTypeKind(TypeOf(GetOperand(o, 0))) == TK['Pointer']: pp.append(GetOperand(o, 0))
+            if len(pp) == 2: return '__verif_ptrdiff((u8*)%s, (u8*)%s)' % (self.val(pp[0]), self.val(pp[1]))
         if op in ('add', 'sub', 'mul', 'and', 'or', 'xor'):
             c = {'add': '+', 'sub': '-', 'mul': '*', 'and': '&', 'or': '|', 'xor': '^'}[op]
             return self.mask(t, '(%s)%s %s (%s)%s' % (ct, A(0), c, ct, A(1)))
